@@ -207,10 +207,14 @@ def link_program(linker, mode, objs, out, ctx, opts=(), libs=(), cwd=None, timeo
 
 
 def run_program(out, cwd, timeout=20):
+    """Runs the program; a timeout is retried once with a longer limit (shared, loaded machine) and
+    is then a harness-level Inconclusive, never a verdict."""
     path = out if os.path.isabs(out) else os.path.join(cwd, out)
     r = tools.run_exe(path, cwd=cwd, timeout=timeout)
     if r.timed_out:
-        return ("timeout", -999)
+        r = tools.run_exe(path, cwd=cwd, timeout=timeout * 6)
+        if r.timed_out:
+            raise Inconclusive(f"generated program {out} timed out twice ({timeout}s, {timeout * 6}s)")
     return (r.out, r.rc)
 
 
@@ -225,7 +229,11 @@ def behaviour(linker, mode, objs, ctx, tag, opts=(), libs=(), cwd=None):
     out = f"{tag}.out"
     r = link_program(linker, mode, objs, out, ctx, opts=opts, libs=libs, cwd=cwd)
     if r.timed_out:
-        return ("crash", "timeout", -999)
+        # Timeouts are not verdicts for these properties (guide): retry once with a long limit, then
+        # give up as Inconclusive.
+        r = link_program(linker, mode, objs, out, ctx, opts=opts, libs=libs, cwd=cwd, timeout=400)
+        if r.timed_out:
+            raise Inconclusive(f"{linker} link timed out twice (90s, 400s) in mode {mode}")
     if r.rc != 0:
         if linker == "wild" and wild_crashed(r):
             return ("crash", r.err[-1500:], r.rc)
